@@ -219,6 +219,34 @@ class RecFuture(Future):
         return r
 
 
+class DuckFuture(object):
+    """Quacks like a future (add_done_callback, result, exception, cancel, ...) without being a concurrent.futures.Future."""
+
+    def __init__(self, inner):
+        self._inner = inner
+
+    def add_done_callback(self, fn):
+        self._inner.add_done_callback(lambda _f: fn(self))
+
+    def result(self, timeout=None):
+        return self._inner.result(timeout)
+
+    def exception(self, timeout=None):
+        return self._inner.exception(timeout)
+
+    def cancel(self):
+        return self._inner.cancel()
+
+    def cancelled(self):
+        return self._inner.cancelled()
+
+    def running(self):
+        return self._inner.running()
+
+    def done(self):
+        return self._inner.done()
+
+
 class ManualExecutor(Executor):
     """Base executor whose jobs run only when the program says so."""
 
@@ -653,6 +681,9 @@ class World(object):
             return mf.f_return_error(e)
         if kind == "cancelled":
             return mf.f_return_cancelled()
+        if kind == "duck":
+            # a future-like object that is NOT a concurrent.futures.Future subclass (as an asyncio future or a third-party handle)
+            return DuckFuture(mf.f_return(_thaw(payload) if payload is not None else ("fv", name)))
         if kind == "src":
             return self.src(payload)
         if kind == "pending":
@@ -669,7 +700,7 @@ class World(object):
     def build(self, name, spec):
         base = spec["base"]
         kw = {}
-        if base.get("name"):
+        if base.get("name") is not None:
             kw["name"] = base["name"]
         if base["kind"] == "sync":
             ex = Executors.sync(**kw)
@@ -698,7 +729,7 @@ class World(object):
     def add_layer(self, ex, layer, lname):
         k = layer["kind"]
         kw = {}
-        if layer.get("name"):
+        if layer.get("name") is not None:
             kw["name"] = layer["name"]
         if k == "map":
             return Executors.with_map(ex, self.fn(lname + ".fn", layer.get("fn")),
@@ -747,7 +778,7 @@ class World(object):
         """Apply a layer through the with_* METHOD of an executor or bound callable (name propagation path)."""
         k = layer["kind"]
         kw = {}
-        if layer.get("name"):
+        if layer.get("name") is not None:
             kw["name"] = layer["name"]
         if k == "map":
             return target.with_map(self.fn(lname + ".fn", layer.get("fn")), error_fn=self.fn(lname + ".err", layer.get("err")), **kw)
